@@ -232,6 +232,17 @@ class PandasModelBase(
         res = a.combine_first(b)
         return res
 
+    def _concat_expr(self, a, b):
+        """
+        Concatenate strings; the result is missing where either part is missing (as in SQL and Polars),
+        not the text "nan"/"None" pasted in.
+        """
+        res = numpy.char.add(numpy.asarray(a, dtype=str), numpy.asarray(b, dtype=str))
+        missing = numpy.logical_or(self.pd.isnull(a), self.pd.isnull(b))
+        if numpy.any(missing):
+            res = numpy.where(missing, None, res.astype(object))
+        return res
+
     def _map_v(self, a, value_map, default_value=None):
         """Map values to values."""
         if len(value_map) > 0:
@@ -320,9 +331,7 @@ class PandasModelBase(
             "is_null": self.isnull,
             "is_bad": self.bad_column_positions,
             "is_in": _type_safe_is_in,
-            "concat": lambda a, b: numpy.char.add(
-                numpy.asarray(a, dtype=str), numpy.asarray(b, dtype=str)
-            ),
+            "concat": lambda a, b: self._concat_expr(a, b),
             "coalesce": lambda a, b: self._coalesce(a, b),  # assuming Pandas series
             "connected_components": lambda a, b: data_algebra.connected_components.connected_components(
                 a, b
